@@ -2,8 +2,9 @@
 import ECAgent.Core as core
 from ECAgent.Decode import IDecodable
 
-EVENTS = []          # dicts appended by every lifecycle participant
-CURRENT = [None]     # the model most recently created by RModel.decode (for events that are not handed the model)
+from vlib.fixtures.decodables_state import EVENTS, CURRENT   # shared by this module and its alias module
+
+MODULE = __name__    # the same source is also loaded under a second module name (same symbol names, different module)
 
 
 def _state(model):
@@ -14,7 +15,7 @@ def _state(model):
 
 def _ev(kind, name, index, model, given_model):
     mid, sysids, nres = _state(model)
-    EVENTS.append({'kind': kind, 'name': name, 'index': index, 'model': mid, 'given_model': None if given_model is None else id(given_model),
+    EVENTS.append({'kind': kind, 'name': name, 'index': index, 'model': mid, 'module': MODULE, 'given_model': None if given_model is None else id(given_model),
                    'registered': sysids, 'residents': nres})
 
 
@@ -28,6 +29,8 @@ class RModel(core.Model, IDecodable):
     @staticmethod
     def decode(params):
         m = RModel(params.get('label'), params.get('seed'))
+        if params.get('complete'):
+            m.complete()             # a model that is already complete while the rest of the description is decoded
         CURRENT[0] = m
         _ev('model_create', params.get('label'), None, m, None)
         return m
